@@ -658,3 +658,6 @@ def check(ctx):
     ctx.rule("R13", "a temperature written is a temperature sent, every time: the structures hand every (position, length, word) of an accessor write to the device callback on every path - a short-cut that skips a request equal to the LAST one never learns that the set point was changed at the spa's keypad meanwhile: writing the same temperature again is dropped silently and the item keeps reading the device-side value (C02.R8 write-through borrowed)")
     from .c02 import write_through as _wt14
     _wt14(ctx.borrowed("R13", "C02"), repo, "R8")
+    ctx.rule("R14", "the word written is the word on the wire, for every temperature: the set-value builder every accessor write ends in puts a 2-byte value into the message as two bytes big-endian whatever the value (interpreted on a symbolic word) - a builder that takes the width from the VALUE writes a set point below 14.2 C (word < 256) as ONE byte, which the pack stores in the high byte: 14.0 C reads back as 3584 C (C02.R3 borrowed)")
+    from .c02 import set_value_encoding as _sve14
+    _sve14(ctx.borrowed("R14", "C02"), repo, "R3")
